@@ -62,5 +62,9 @@ for (pid, v), needs in T.items():
             "confirmed": {"applies_to": "cd8c286", "test_suite_with_patch": "tools/baseline.py on the patched worktree: passed=1617 failed_or_skipped=13 baseline_missing=0 - run by me (and by the agent)",
                           "demo_with_patch": "exit 1 (run by me)", "demo_without_patch": "exit 0 (run by me)"},
             "detected_by": ("quick check (final trial): " + line[:400]) if line else "see seeded/MATRIX.md"}
+    if (pid, v) == ("C19", "B"):
+        meta["neutralised_by_fix"] = "f2253aa"
+    if os.path.exists(f"{src}/{v}.orig-cd8c286.diff"):
+        shutil.copy(f"{src}/{v}.orig-cd8c286.diff", f"{dst}/patch.orig-cd8c286.diff")
     json.dump(meta, open(f"{dst}/meta.json", "w"), indent=1)
 print("stored", len(T))
